@@ -11,6 +11,7 @@ import (
 	"net/http"
 	"net/url"
 	"path"
+	"strings"
 
 	"github.com/friendsofgo/errors"
 	"github.com/pquerna/otp"
@@ -487,7 +488,9 @@ func (t *TOTP) validate(r *http.Request) (User, string, error) {
 		return user, t.Localizef(r.Context(), authboss.TxtSuccess), nil
 	}
 
-	input := totpCodeValues.GetCode()
+	// totp.Validate ignores surrounding whitespace, so must the replay check
+	// or the same code typed with a trailing blank is a "different" code.
+	input := strings.TrimSpace(totpCodeValues.GetCode())
 
 	if oneTime, ok := user.(UserOneTime); ok {
 		oldCode := oneTime.GetTOTPLastCode()
